@@ -588,6 +588,12 @@ func cmdCheck(args []string) int {
 		phases = []k.Engine{eng, k.EngineByName("P")}
 		shares = []float64{0.85, 0.15}
 	}
+	if *prop == "C11" {
+		// a transport that never completes a hand-off stops the dispatcher for good: the transport engine
+		// decides that every message given to the poll worker is completed, whatever the listeners do
+		phases = []k.Engine{eng, k.EngineByName("P")}
+		shares = []float64{0.85, 0.15}
+	}
 	if *prop == "C19" {
 		// where a resolved poll address ends up inside the transport (which listener gets the bytes, what a
 		// full or absent listener does to the hand-off) is decided by the transport engine
@@ -1158,7 +1164,7 @@ func cmdSelftest(args []string) int {
 		if p == "C16" || p == "C18" {
 			list = append(list, p+"/K")
 		}
-		if p == "C13" || p == "C19" {
+		if p == "C13" || p == "C19" || p == "C11" {
 			list = append(list, p+"/P")
 		}
 	}
